@@ -6,6 +6,8 @@ RN = "src/pyunicorn/core/resistive_network.py"
 CN = "src/pyunicorn/climate/climate_network.py"
 DT = "src/pyunicorn/core/data.py"
 CD = "src/pyunicorn/climate/climate_data.py"
+GN = "src/pyunicorn/core/geo_network.py"
+RP = "src/pyunicorn/timeseries/recurrence_plot.py"
 
 MUTANTS = [
  {"name": "c19_newman_last_chunk_short", "property": "C19", "edits": [
@@ -103,4 +105,52 @@ MUTANTS = [
                 self._full_observable[time_indices, :][:, space_indices]""")]},
  {"name": "c13_anomaly_in_place_on_view", "property": "C13", "edits": [
    (CD, "        anomaly = np.zeros(observable.shape)\n", "        anomaly = observable\n")]},
+ {"name": "c01_counter_reset_on_reinit", "property": "C01", "edits": [
+   (NW, 'self._mut_A: int = getattr(self, "_mut_A", 0)', 'self._mut_A: int = 0')]},
+ {"name": "c01_degree_without_la", "property": "C01", "edits": [
+   (NW, """    @Cached.method(attrs=("_mut_la",))
+    def degree(self, key=None):""", """    @Cached.method()
+    def degree(self, key=None):""")]},
+ {"name": "c01_path_lengths_without_la", "property": "C01", "edits": [
+   (NW, '@Cached.method(name="path lengths", attrs=("_mut_la",))', '@Cached.method(name="path lengths")')]},
+ {"name": "c01_geo_weights_bypass_setter", "property": "C01", "edits": [
+   (GN, """        if node_weight_type == "surface":
+            self.node_weights = self.grid.cos_lat()""", """        if node_weight_type == "surface":
+            self._node_weights = self.grid.cos_lat()""")]},
+ {"name": "c01_rn_cache_state_plot_only", "property": "C01", "edits": [
+   ("src/pyunicorn/timeseries/recurrence_network.py", "        return RecurrencePlot.__cache_state__(self) + net_state", "        return RecurrencePlot.__cache_state__(self)")]},
+ {"name": "c01_R_setter_no_bump", "property": "C01", "edits": [
+   (RP, """        self._R = R
+        # invalidate cache
+        self._mut_R += 1""", """        self._R = R""")]},
+ {"name": "c01_nw_counter_not_bumped", "property": "C01", "edits": [
+   (NW, """        self.total_node_weight = w.sum()
+
+        # invalidate cache
+        self._mut_nw += 1""", """        self.total_node_weight = w.sum()""")]},
+ {"name": "c01_la_counter_not_bumped_on_set", "property": "C01", "edits": [
+   (NW, """            e[attribute_name] = values[e.tuple]
+        # invalidate cache
+        self._mut_la += 1
+""", """            e[attribute_name] = values[e.tuple]
+""")]},
+ {"name": "c01_nsi_closeness_without_nw", "property": "C01", "edits": [
+   (NW, """    @Cached.method(name="n.s.i. closeness", attrs=("_mut_nw",))""", """    @Cached.method(name="n.s.i. closeness")""")]},
+ {"name": "c01_network_state_without_mutA", "property": "C01", "edits": [
+   (NW, "        return (self.directed, self._mut_A,)", "        return (self.directed,)")]},
+ {"name": "c01_window_counter_not_bumped", "property": "C01", "edits": [
+   (CD, """        Data.set_window(self, window)
+        # invalidate cache
+        self._mut_window += 1""", """        Data.set_window(self, window)""")]},
+ {"name": "c01_embedding_counter_not_bumped", "property": "C01", "edits": [
+   (RP, """        self.N = self._embedding.shape[0]
+        self._mut_embedding += 1""", """        self.N = self._embedding.shape[0]""")]},
+ {"name": "c01_resistances_store_not_cleared", "property": "C01", "edits": [
+   (RN, """        # stored effective resistances are no longer valid
+        self._effective_resistances = None
+""", "")]},
+ {"name": "c01_mi_one_file_for_both", "property": "C01", "edits": [
+   ("src/pyunicorn/climate/mutual_info.py", 'if self._winter_only and self.mi_file.endswith(".data"):', 'if False:')]},
+ {"name": "c01_jrn_diagonal_stride", "property": "C01", "edits": [
+   ("src/pyunicorn/timeseries/joint_recurrence_network.py", "        A.flat[::A.shape[0]+1] = 0\n", "        A.flat[::self.N+1] = 0\n")]},
 ]
